@@ -62,6 +62,24 @@ func (e ExitReason) GetHostCallID() uint8 {
 	return uint8(e)
 }
 
+// GetHostCallIndex returns the full host-call identifier carried by a
+// HOST_CALL exit reason (see hostCallExit).
+func (e ExitReason) GetHostCallIndex() uint32 {
+	return uint32(e)
+}
+
+// hostCallExit packs the immediate of an ecalli instruction into a HOST_CALL
+// exit reason. The payload holds 32 bits: an identifier that does not fit can
+// never name a registered host call, so every such identifier is represented
+// by 2^32-1, which is unregistered as well. The reason type byte is never
+// touched by the identifier.
+func hostCallExit(id uint64) ExitReason {
+	if id > math.MaxUint32 {
+		id = math.MaxUint32
+	}
+	return ExitHostCall | ExitReason(id)
+}
+
 func (e ExitReason) GetPageFaultAddress() uint32 {
 	return uint32(e)
 }
